@@ -144,7 +144,15 @@ impl LairRun {
                 s(tb.bonded_assets.iter().find(|a| a.info == AssetInfo::NativeToken { denom: d.to_string() }).map(|a| a.amount.u128()).unwrap_or(0)),
             );
         }
-        json!({"bonded": Value::Object(bonded), "unb": Value::Object(unb), "withdrawable": Value::Object(wd),
+        // bonding weights as the lair reports them now (what the fee distributor uses to split an epoch)
+        let mut wq = serde_json::Map::new();
+        for (i, u) in self.users.iter().enumerate() {
+            let r: Result<white_whale_std::whale_lair::BondingWeightResponse, _> = w.query(&self.lair, &QueryMsg::Weight { address: u.to_string(), timestamp: None, global_index: None });
+            wq.insert(USERS[i].into(), match r {
+                Ok(x) => json!({"res": "ok", "weight": s(x.weight.u128()), "global": s(x.global_weight.u128()), "share": s(x.share.atomics().u128())}),
+                Err(_) => json!({"res": "none", "weight": "0", "global": "0", "share": "0"}) });
+        }
+        json!({"weights": Value::Object(wq), "bonded": Value::Object(bonded), "unb": Value::Object(unb), "withdrawable": Value::Object(wd),
                "w": Value::Object(wal), "cbal": Value::Object(cb), "total": s(tb.total_bonded.u128()),
                "totalBy": Value::Object(tba), "now": w.now_nanos().to_string()})
     }
